@@ -359,6 +359,15 @@ func runC20(r *Run, stratum string) *Violation {
 		}
 	}
 
+	// a target that is briefly not ready: one request of the replay is answered with an error that says "try again
+	// later" (a script of another client runs past its time limit, a cluster slot is busy). The replay may fail - the
+	// tool then repeats the full sync - or go on if it can do so correctly; it must not go on with its view of the
+	// connection (replies, selected database) out of step with the target's
+	transient := !cfg.Bisync && raced == nil && ss.onStep == nil && g.Choose("transient-error", 5) == 0
+	if transient {
+		ss.errAt = 1 + g.Choose("transient-at", 4+3*len(ds.Keys))
+		ss.errText = []string{"BUSY Redis is busy running a script. You can only call SCRIPT KILL or SHUTDOWN NOSAVE.", "LOADING Redis is loading the dataset in memory", "TRYAGAIN Multiple keys request during rehashing of slot"}[g.Choose("transient-kind", 3)]
+	}
 	restore := ss.start()
 	defer restore()
 	finished := ss.run()
@@ -477,6 +486,17 @@ func runC20(r *Run, stratum string) *Violation {
 	}
 	switch {
 	case v != nil:
+	case done && err != nil && ss.errHit:
+		// the replay gave up at the refused request (the full sync will be repeated): what the policies promise about keys
+		// that were there before holds for a replay that stops half way too
+		simrt.Probe("c20_transient_error_stopped_the_replay")
+		if policy == "ignore" || policy == "error" {
+			for _, pk := range preList {
+				if pk.snap != nil && v == nil {
+					v = untouched(pk, policy)
+				}
+			}
+		}
 	case !done:
 		v = ss.violation("C20.hang", "Send does not return although the whole snapshot was fed and the target answered everything",
 			"fed %d/%d bytes, target idle, 120 s of virtual time passed and Send has not returned", ss.fed, len(ss.rdb))
